@@ -102,7 +102,19 @@ F7 == { Case("F7", <<Rule("start", Alt(Cat(EQ, EB), EM)), Rule("x", Un(op, EN))>
       \cup { Case("F7", <<Rule("start", Alt(Cat(Cat(NT("start"), EQ), NT("start")), Alt(Cat(Cat(NT("start"), EB), NT("start")), EM))),
                            Dir("left", <<HTerm("\\\"", TRUE)>>), Dir(a, <<HTerm("\\\\", TRUE), HTerm("a\\\"b", TRUE)>>)>>) : a \in {"left", "right", "none"} }
 
-All == F7 \cup F1 \cup F2 \cup F2b \cup F2c \cup F2d \cup F3 \cup F4 \cup F6
+\* ---- F8: named tokens as operands, a rule declared in several pieces, rule handles that bring their own production ----
+NUMT == TTok("NUM")
+IDT == TTok("IDT")
+F8 == { Case("F8", <<Tok("NUM", "pat", "[0-9]+"), Tok("IDT", "pat", "[a-z]+"),
+                     Rule("start", Cat(Un(o1, NUMT), Un(o2, Alt(IDT, NUMT)))), Rule("x", Un(o2, Cat(NUMT, A)))>>) : o1 \in UnaryOps, o2 \in UnaryOps }
+      \cup { Case("F8", <<Tok("NUM", "pat", "[0-9]+"), Tok("IDT", "pat", "[a-z]+"),
+                     Rule("start", Cat(Cat(Un(o1, NUMT), Un(o2, IDT)), Un(o1, IDT))), Rule("x", Un(o2, NUMT))>>) : o1 \in UnaryOps, o2 \in UnaryOps }
+      \cup { Case("F8", <<Rule("start", Cat(X, Un(o1, X))), Rule("x", A), Rule("x", Cat(B, X)), Rule("x", TAlt(C))>>) : o1 \in UnaryOps }
+      \cup { Case("F8", <<Rule("start", Cat(Un(o1, Cat(A, B)), X)), Rule("x", Un(o1, Cat(A, B))), Rule("start", Un(o2, Cat(A, B)))>>) : o1 \in UnaryOps, o2 \in UnaryOps }
+      \cup { Case("F8", <<Rule("start", Alt(Cat(Cat(NT("start"), A), NT("start")), NT("y"))), Rule("y", B),
+                     Dir("left", <<HRule("start", Cat(Cat(NT("start"), A), NT("start")))>>), Dir("none", <<HRule("y", Un(o1, C))>>)>>) : o1 \in UnaryOps }
+
+All == F8 \cup F7 \cup F1 \cup F2 \cup F2b \cup F2c \cup F2d \cup F3 \cup F4 \cup F6
 ASSUME /\ ndJsonSerialize("gen_specs.ndjson", SetToSeq(All))
        /\ PrintT(<<"GENERATED", Cardinality(All), "F1", Cardinality(F1), "F2", Cardinality(F2) + Cardinality(F2b) + Cardinality(F2c) + Cardinality(F2d), "F3", Cardinality(F3), "F4", Cardinality(F4)>>)
 =============================================================================
